@@ -29,6 +29,14 @@ def h_identifiers(eng, lang):
     eng.notes['sample'] = dict(language=lang, pool=len(allwords), reserved=len(reserved), clashes=bad[:8])
     obs = [Ob('identifiers|never-reserved-after-case-mapping|%s' % lang, not bad,
               dict(language=lang, clashes=bad[:10], example=(bad[0].capitalize() if bad else None)))]
+    # the driver's history: reserved words removed once at start-up, the pool reset before every program
+    def clashes(pool):
+        return sorted(w for w in pool if w in reserved or w.lower() in reserved or w.capitalize() in reserved)
+    for step in ('reset', 'reset-again'):
+        r.reset_word_pool()
+        bad2 = clashes(r.WORDS)
+        obs.append(Ob('identifiers|never-reserved-after-%s|%s' % (step, lang), not bad2,
+                      dict(language=lang, history='remove_reserved_words; ' + step, clashes=bad2[:10])))
     return obs
 
 
@@ -50,6 +58,34 @@ def h_unique(eng):
     return [Ob('identifiers|unique', len(set(got)) == 4 and not (set(got) & r.WORDS), dict(words=got))]
 
 
+def h_type_param_names(eng, lang):
+    """gen_type_params: the names of the type parameters of one declaration are pairwise different and differ from the
+    type variables already in scope (the blacklist handed in by the callers)"""
+    from vlib.props.C17 import make_generator
+    from vlib.symrandom import installed, config
+    from src.ir import ast, types as tp
+    count = int(eng.fresh_int(0, 3, 'count'))
+    for_function = bool(eng.fresh_bool('for_function'))
+    outer = bool(eng.fresh_bool('type_variable_in_scope'))
+    g = make_generator(lang, False, True)
+    g.namespace = ast.GLOBAL_NAMESPACE + ('Cls',)
+    if outer:
+        # the enclosing class declares a type variable named as caps() would name the next one
+        g.context.add_type(g.namespace, 'A', tp.TypeParameter('A'))
+    g.namespace = g.namespace + ('meth',)
+    case = dict(unit='gen_type_params', language=lang, count=count or None, for_function=for_function, type_variable_in_scope=outer)
+    with installed(eng, max_sym_draws=4), config(limits__max_type_params=3, prob__bounded_type_parameters=0.0):
+        tps = g.gen_type_params(count=count or None, for_function=for_function, blacklist=g._get_type_variable_names())
+    names = [t.name for t in tps]
+    case['result'] = names
+    eng.event('type-params')
+    if len(names) >= 2:
+        eng.event('two-or-more')
+    eng.notes['sample'] = case
+    return [Ob('type-parameters|names-pairwise-different', len(names) == len(set(names)), case),
+            Ob('type-parameters|names-differ-from-the-type-variables-in-scope', not (outer and 'A' in names), case)]
+
+
 def jobs(tier):
     out = []
     langs = ['java', 'kotlin'] if tier == 'quick' else U.LANGS
@@ -62,6 +98,13 @@ def jobs(tier):
             out.append(Job('%s-%s' % (unit, lang), U.harness, dict(lang=lang, unit=unit, aspect=ASPECT, **extra),
                            split_depth=6, functions=U.FUNCS[unit], stubs=U.STUBS, require_events=['unit:%s' % unit],
                            budget_s=2400, crosscheck_every=500, bounds=U.unit_bounds(extra), outside=U.OUT))
+    from src.generators.generator import Generator
+    for lang in langs:
+        out.append(Job('type-parameter-names-%s' % lang, h_type_param_names, dict(lang=lang), split_depth=4,
+                       functions=[Generator.gen_type_params], require_events=['type-params', 'two-or-more'], budget_s=600,
+                       stubs=['src.utils.random -> symbolic RNG; caps(blacklist): the first letter not blacklisted'],
+                       bounds='count in {None, 1..3}, for_function and a pre-existing type variable in scope symbolic; '
+                              'max_type_params = 3; every RNG outcome of the first 4 draws', outside=U.OUT))
     out.append(Job('identifiers-unique', h_unique, {}, serial=True, functions=[utils.RandomUtils.word],
                    require_events=['unique'], bounds='4 draws from a 5-word pool, every choice', outside=U.OUT))
     for lang in U.LANGS:
